@@ -572,14 +572,15 @@ class History:
         lines.append(f"  retained(model, bytes)={self.model.retained}")
         return "\n".join(lines)
 
-    def loc_tag(self, name: str | None) -> str:
-        """Root-cause bucket suffix for a violation observed on location ``name``: the two stacked shapes
-        with recorded findings get their own kinds, so that they never hide a violation elsewhere."""
+    def loc_tag(self, name: str | None, nested: tuple | set = ()) -> str:
+        """Root-cause bucket suffix for a violation observed on (inner) location ``name``: the stacked
+        shapes with recorded findings get their own kinds, so that they never hide a violation elsewhere.
+        ``nested``: further locations known to be reached through a bind that contains an inner mount."""
         if name is None:
             return ""
         if len(self.world.outer_sharing(name)) > 1:
             return ":shared-inner"
-        if name in self.nested_locs:
+        if name in self.nested_locs or name in nested:
             return ":inner-mount-under-bind"
         if name in self.multi_locs:
             return ":multi-location-stacked"
@@ -765,7 +766,7 @@ class History:
                 continue
             a = j["last_alloc"]
             if isinstance(exc, WorkflowExecutionException) and "cannot have negative size" in str(exc) and a is not None and any(
-                    nested_under_bind(self.world, l, a["req"], a["paths"]) for l in a["locs"]):
+                    nested_under_bind(self.world, l, a["req"], a["paths"]) or self.world.locs[l].inner in self.nested_locs for l in a["locs"]):
                 self.stats["release_raised"] = self.stats.get("release_raised", 0) + 1
                 self._violate("C11", "release-raises:inner-mount-under-bind",
                               f"notify_status({j['name']}, {j['status']}) raised {type(exc).__name__}: {exc}")
@@ -774,6 +775,9 @@ class History:
 
     def poll(self):
         """Move finished schedule() tasks into the model (re-raises their exceptions)."""
+        from streamflow.core.exception import WorkflowExecutionException
+
+        self.raise_pending()
         self.check_notify_results()
         done = [j for j in self.jobs if j["task"] is not None and j["task"].done()]
         # grants are processed in the order the scheduler made them
@@ -782,7 +786,22 @@ class History:
         for j in done:
             t = j["task"]
             j["task"] = None
-            t.result()
+            try:
+                t.result()
+            except WorkflowExecutionException as e:
+                # the scheduler trips over its own over-allocated inner location (free storage < 0): this is the
+                # C10 finding on shared inner locations, already recorded by the anytime check; void for C11/C12
+                if "cannot have negative size" in str(e) and self.pending_violation is not None \
+                        and self.pending_violation.kind == "C10:over-allocation:shared-inner":
+                    self.stats["void_over_allocation"] = 1
+                    raise Abort() from None
+                # ... or over the storage that a release through a bind containing an inner mount point left on the
+                # wrong mount point of the inner location (C11 finding)
+                cands = [l for ti in j["survivors"] for l in self.world.deployments[self.world.top[self.bindings[j["bi"]]["targets"][ti][0] % len(self.world.top)]]]
+                if "cannot have negative size" in str(e) and any(self.world.locs[l].inner in self.nested_locs for l in cands):
+                    self._violate("C11", "not-restored:inner-mount-under-bind", f"schedule({j['name']}) raised {type(e).__name__}: {e}")
+                    raise Abort() from None
+                raise
             a = self.sched.job_allocations.get(j["name"])
             if a is None or a.status.name != "FIREABLE":
                 self._violate(self.oracle, "schedule-returned-without-allocation",
@@ -826,7 +845,11 @@ class History:
         try:
             self.check_c10_public()
         except Violation as v:
-            self.pending_violation = v
+            self.pending_violation = v  # sticky: raised by the main task if the oracle is C10
+
+    def raise_pending(self):
+        if self.pending_violation is not None and self.oracle == "C10":
+            raise self.pending_violation
 
     def check_c10_public(self):
         by_name = {j["name"]: j for j in self.jobs}
@@ -837,7 +860,8 @@ class History:
                 active.append({"job": name, "locs": [l.name for l in a.locations], "req": j["mreq"], "paths": j["paths"]})
         bad = self.model.over(active)
         if bad:
-            tag = max((self.loc_tag(b.split(":")[0]) for b in bad), default="")
+            nested = {self.world.locs[l].inner for a in active for l in a["locs"] if nested_under_bind(self.world, l, a["req"], a["paths"])}
+            tag = max((self.loc_tag(b.split(":")[0], nested) for b in bad), default="")
             v = Violation("C10:over-allocation" + tag,
                           "; ".join(bad) + f"\nactive={[(a['job'], a['locs']) for a in active]}\n" + self.describe())
             raise v
@@ -898,7 +922,8 @@ class History:
                 dname = self.world.top[dep % len(self.world.top)]
                 sets = self.model.admissible_sets(active, dname, k, j["mreq"], j["paths"])
                 if sets:
-                    tag = max((self.loc_tag(self.world.locs[l].inner) for l in sets[0]), default="")
+                    nested = {self.world.locs[l].inner for l in sets[0] if nested_under_bind(self.world, l, j["mreq"], j["paths"])}
+                    tag = max((self.loc_tag(self.world.locs[l].inner, nested) for l in sets[0]), default="")
                     self._violate("C12", "request-starved" + tag,
                                   f"quiescent, yet schedule({j['name']}) is still waiting although target #{ti} ({dname}, locations={k}) "
                                   f"can host it on {sets[0]} (req={j['mreq']})")
@@ -949,10 +974,7 @@ class History:
 
         await settle()
         self.poll()
-        if self.pending_violation is not None:
-            v, self.pending_violation = self.pending_violation, None
-            if self.oracle == "C10":
-                raise v
+        self.raise_pending()
         self.stats["quiescent"] += 1
         self.check_status_agreement()
         if self.oracle == "C10":
@@ -963,8 +985,6 @@ class History:
     async def run_ops(self):
         for op in self.case["ops"]:
             self.poll()
-            if self.pending_violation is not None and self.oracle == "C10":
-                raise self.pending_violation
             kind = op[0]
             if kind == "s":
                 await self.op_schedule(op[1], op[2], op[3], op[4], op[5] if len(op) > 5 else None)
@@ -1035,10 +1055,14 @@ slot_loc = st.fixed_dictionaries({"slots": st.integers(1, 3)})
 
 
 @st.composite
-def deployment(draw, allow_stack=True):
-    kind = draw(st.sampled_from(["hw", "hw", "slots"]))
-    n = draw(st.sampled_from([1, 1, 2, 2, 3]))
-    locs = draw(st.lists(hw_loc() if kind == "hw" else slot_loc, min_size=n, max_size=n))
+def deployment(draw, allow_stack=True, tight=False):
+    """``tight`` (C13): small capacities, so that early targets of a binding are often full."""
+    kind = draw(st.sampled_from(["hw", "slots", "slots"] if tight else ["hw", "hw", "slots"]))
+    n = draw(st.sampled_from([1, 1, 1, 2] if tight else [1, 1, 2, 2, 3]))
+    if tight:
+        locs = draw(st.lists(hw_loc(4, 10) if kind == "hw" else st.fixed_dictionaries({"slots": st.sampled_from([1, 1, 2])}), min_size=n, max_size=n))
+    else:
+        locs = draw(st.lists(hw_loc() if kind == "hw" else slot_loc, min_size=n, max_size=n))
     d = {"kind": kind, "data": draw(st.booleans()), "locs": locs, "stack": None}
     if allow_stack and draw(st.integers(0, 9)) < 4:
         d["stack"] = {
@@ -1067,8 +1091,8 @@ requirement = st.one_of(
 
 @st.composite
 def world(draw, filters=False, allow_stack=True, max_deps=3):
-    nd = draw(st.sampled_from([1, 1, 2, 2, 3][: 2 * max_deps - 1]))
-    deps = [draw(deployment(allow_stack)) for _ in range(nd)]
+    nd = draw(st.sampled_from([1, 2, 2, 3, 3] if filters else [1, 1, 2, 2, 3][: 2 * max_deps - 1]))
+    deps = [draw(deployment(allow_stack, tight=filters)) for _ in range(nd)]
     nb = draw(st.integers(1, 3))
     bindings = []
     for _ in range(nb):
@@ -1129,7 +1153,8 @@ def ops(filters=False, max_size=40):
     n = st.tuples(st.just("n"), st.integers(0, 15), st.integers(0, 23))
     q = st.tuples(st.just("q"))
     r = st.tuples(st.just("r"), st.integers(0, 7))
-    return st.lists(st.one_of(s, s, s, s, n, n, n, n, n, n, r, q, q, q), min_size=4, max_size=max_size).map(lambda l: [list(x) for x in l])
+    mix = [s, s, s, s, s, n, n, n, r] if filters else [s, s, s, s, n, n, n, n, n, n, r, q, q, q]
+    return st.lists(st.one_of(*mix), min_size=4, max_size=max_size).map(lambda l: [list(x) for x in l])
 
 
 def history_case(filters=False, allow_stack=True, max_ops=40):
@@ -1206,6 +1231,13 @@ def exhaustive_blocks(tier: str):
                 yield {"config": ci, "prefix": [f, s2], "depth": depth}
 
 
+EXH_NONTRIVIAL = {
+    "C10": lambda st_: st_["waited"] >= 1,
+    "C11": lambda st_: st_.get("idle_points", 0) >= 1 and (st_["dups"] >= 1 or st_["rel_fireable"] >= 1),
+    "C12": lambda st_: st_["waited_granted"] >= 1,
+}
+
+
 async def run_exhaustive_block(case: dict, oracle: str, rec) -> None:
     name, desc, symmetric = EXH_CONFIGS[case["config"]]
     depth = case["depth"]
@@ -1240,7 +1272,7 @@ async def run_exhaustive_block(case: dict, oracle: str, rec) -> None:
         for d, a in alts:
             stack.append(taken[:d] + [a])
         leaves += 1
-        if h.stats["waited"]:
+        if EXH_NONTRIVIAL[oracle](h.stats):
             waited += 1
     rec.label(f"config:{name}")
     rec.bulk(evaluations=leaves, nontrivial=waited)
